@@ -156,6 +156,8 @@ def gen_combo(rng, files, valid_bias):
             env[ENVNAME[l]] = gen_value(rng, l, valid_bias)
     if pers == "dsh" and rng.random() < 0.15:      # ignored for pdsh, must not leak into it
         env["PDSH_REMOTE_PDCP_PATH"] = "/env/pdcp"
+    if rng.random() < 0.08:                        # part of the remote command (C09): must not touch any setting here
+        env["DSHPATH"] = rng.choice(["/opt/bin", "/a:/b", ""])
     for fl in (FLAGS_DSH if pers == "dsh" else FLAGS_PCP):
         if rng.random() < 0.2:
             opts.append((fl, None))
@@ -206,6 +208,32 @@ def gen_wcoll(rng, files):
     c = Case(pers, opts, {}, operands_for(pers, files), [rng.choice(["sep", "att"]) for _ in opts])
     c.wspec = {"types": types, "users": users, "malformed": malformed}
     return c
+
+
+def gen_modes(rng, files):
+    """correspondence only: the remaining letters of the option table in the personality they belong to — the pdcp
+    server / client modes (-z, -Z), -y, -r, -p with 0..3 operands; -T 0 (a built-in self test), -I (in the option
+    string, handled by nothing), -s (AIX only: not in this build's option string)"""
+    pers = rng.choice(["pdcp", "pdcp", "rpdcp", "dsh"])
+    opts = [("w", "foo"), ("q", None)] if rng.random() < 0.7 else [("q", None)]
+    pool = [("z", None), ("Z", None), ("y", None), ("r", None), ("p", None), ("T", "0"), ("I", "x"), ("s", None), ("K", None),
+            ("x", "bar"), ("Q", None), ("e", "/opt/pdcp")]
+    for o in rng.sample(pool, rng.choice([1, 1, 2, 3])):
+        opts.append(o)
+    # observed while building this group (reported, not part of C18's statement): `pdcp -Z -q file host` WITHOUT -w
+    # dereferences the NULL target list in opt_list (SIGSEGV); the undocumented client mode is only ever started by
+    # rpdcp itself, so the cases here always give -w with -Z
+    if ("Z", None) in opts and not any(l == "w" for l, _ in opts):
+        opts.append(("w", "foo"))
+    rng.shuffle(opts)
+    if pers == "dsh":
+        operands = ["true"]
+    else:
+        n = rng.choice([0, 1, 1, 2, 2, 3])
+        operands = ([files["src"]] * max(0, n - 1) + [files["dst"]])[:n] if n else []
+        if ("Z", None) in opts and n >= 2:
+            operands = [files["src"]] * (n - 1) + ["clienthost"]
+    return Case(pers, opts, {}, operands, [rng.choice(["sep", "att", "cluster"]) for _ in opts], oracle=False)
 
 
 def gen_syntax(rng, files):
@@ -384,6 +412,29 @@ def load_replay(ctx):
     return c, k.get("kind", "q")
 
 
+DIAGNOSTICS = [("invalid-fanout", rb"Invalid fanout"), ("invalid-environment-variable", rb"Invalid environment variable"),
+               ("invalid-connect-timeout", rb"Invalid connect timeout"), ("invalid-command-timeout", rb"Invalid command timeout"),
+               ("username-too-long", rb"exceeds max username length"), ("no-such-rcmd-module", rb"No such rcmd module"),
+               ("failed-to-register-rcmd", rb"Failed to register rcmd"), ("host-spec-form", rb"not of form"),
+               ("no-remote-hosts", rb"no remote hosts specified"), ("connect-timeout-negative", rb"connect timeout must be"),
+               ("command-timeout-negative", rb"command timeout must be"), ("fanout-not-positive", rb"fanout must be"),
+               ("exec-with-t", rb"Cannot specify -t"), ("usage", rb"Usage: "), ("invalid-option", rb"invalid option"),
+               ("pcp-needs-operands", rb"requires source and dest"), ("target-is-directory", rb"target is directory can only"),
+               ("pcp-server-rules", rb"with pcp server|pcp server and pcp client"), ("pcp-client-rules", rb"pcp client")]
+OPTIONAL_DIAGNOSTICS = {"invalid-option"}      # getopt's own message (opterr), glibc wording
+
+
+def generated_table():
+    """option letters (present in this build's option strings / absent, e.g. -s on AIX only) and variables of the
+    settings table that harness/consts/optable.c reads off opt.c"""
+    src = open(os.path.join(VERIF, "lean", "PdshVerif", "Gen", "Optable.lean")).read()
+    strs = "".join(re.search(r'def OT_%s : String := "([^"]*)"' % n, src).group(1) for n in ("GEN_ARGS", "DSH_ARGS", "PCP_ARGS"))
+    rows = lambda name: re.findall(r'\("([^"]*)", "([^"]*)", "([^"]*)"\)', re.search(r"def %s : .*" % name, src).group(0))
+    letters = {r[0] for r in rows("OT_OPTS")} | {r[0] for r in rows("OT_EARLY")} | set(strs.replace(":", ""))
+    return {"letters": {l for l in letters if l in strs}, "absent": {l for l in letters if l not in strs},
+            "env": [r[0] for r in rows("OT_ENVS")]}
+
+
 def rank_from_gen():
     src = open(os.path.join(VERIF, "lean", "PdshVerif", "Gen", "Opt.lean")).read()
     return re.findall(r'"([^"]*)"', re.search(r"RCMD_RANK : List String := \[(.*)\]", src).group(1))
@@ -436,7 +487,7 @@ def detect_variant(real, moddir):
 # --------------------------------------------------------------------------- main
 def run(ctx):
     rng = ctx.rng
-    ctx.gen_consts(["dsh", "opt"])
+    ctx.gen_consts(["dsh", "opt", "optable"])
     ctx.lean_build([PROPS, "pdshmodel"])
     ctx.audit(PROPS)
     cov = {"evaluations": 0, "distinct_nontrivial": 0, "samples": [],
@@ -452,9 +503,6 @@ def run(ctx):
                    "setting given by option or variable; distinct = distinct (personality, environment, argv)"}
     dist = {"single": 0, "combo": 0, "orders": 0, "syntax": 0, "misc": 0, "runs": 0, "accepted": 0, "rejected": 0,
             "hang": 0, "info_exit": 0, "pers": {"dsh": 0, "pdcp": 0, "rpdcp": 0}, "classes": {}}
-    src_os, mod_os = optstrings_from_source(), model_optstrings()
-    if src_os != mod_os:
-        ctx.broken.append(("C-BROKEN", "getopt strings", "opt.c has %s, the model has %s" % (src_os, mod_os)))
     repo = ctx.repo_build()
     if repo:
         os.chmod(ctx.scratch, 0o755)
@@ -514,6 +562,10 @@ def run(ctx):
         for _ in range(150 if quick else 3000):
             c = gen_wcoll(rng, real.files)
             c.group = "wcoll"
+            cases.append(c)
+        for _ in range(60 if quick else 1500):
+            c = gen_modes(rng, real.files)
+            c.group = "modes"
             cases.append(c)
         for c in load_corpus(real.files):
             cases.append(c)
@@ -592,6 +644,8 @@ def run(ctx):
                 got = "ok %s %s %s %s %s" % (mm[1], mm[2], mm[3], mm[4], mm[5] if mm[5] != "~" else hx("none"))
                 if d is not None and (mm[7] != hx(d["path"]) or "q=1" not in mm):
                     got += " path/q differ: model %s" % m
+                if "z=1" in mm and "q=1" in mm and d is None and rc == 0:
+                    got = want      # pdcp server mode: opt_list prints the PCP section only (no generic settings to compare)
             else:
                 got = m
             if got != want:
@@ -762,6 +816,34 @@ def run(ctx):
                     ctx.offender(clause, "real run: clause `%s` violated: env %s argv %s -> %s" % (clause, c.env, a, want),
                                  dict(case, clause=clause))
         cov["distinct_nontrivial"] = len(distinct)
+        # ---- what the run hit: every option letter / variable of the table GENERATED from opt.c, the diagnostics ----
+        if rp_case is None:
+            groups = [(cases, res), (rcases, rres)]
+            if moddir:
+                groups += [(mcases, mres), (qcases, qres)]
+            hit = {"dsh": set(), "pdcp": set(), "rpdcp": set()}
+            envhit, diag = set(), {}
+            for cs_, rs_ in groups:
+                for c, (rc, out, err_) in zip(cs_, rs_):
+                    hit[c.pers].update(l for l, _ in c.opts)
+                    envhit.update(c.env)
+                    for kind, pat in DIAGNOSTICS:
+                        if re.search(pat, err_ or b""):
+                            diag[kind] = diag.get(kind, 0) + 1
+            tab = generated_table()
+            allhit = set().union(*hit.values())
+            dist["options_hit"] = {k: "".join(sorted(v)) for k, v in hit.items()}
+            dist["env_hit"] = sorted(envhit)
+            dist["diagnostics_hit"] = diag
+            dist["table_letters"] = "".join(sorted(tab["letters"]))
+            dist["table_letters_not_in_this_build"] = "".join(sorted(tab["absent"]))
+            dist["table_env"] = sorted(tab["env"])
+            missing = sorted(tab["letters"] - allhit)
+            missing_env = sorted(set(tab["env"]) - envhit)
+            missing_diag = [k for k, _ in DIAGNOSTICS if k not in diag and k not in OPTIONAL_DIAGNOSTICS]
+            if missing or missing_env or missing_diag:
+                ctx.broken.append(("C-BROKEN", "generator coverage", "not hit in this run: option letters %s, variables %s, "
+                                   "diagnostics %s (table generated from opt.c)" % (missing, missing_env, missing_diag)))
     cov["distribution"] = dist
     cov["traces_validated_against_impl"] = cov["evaluations"]
     return ctx.finish(
